@@ -253,6 +253,7 @@ def stream_cases(ctx, env):
         ("two rejection calls, n_batches 3 then 2", [("rej", dict(n_batches=3, n_linear_samples=2)), ("rej", dict(n_batches=2))]),
         ("rejection + iterative on one object", [("rej_fn", dict(n_batches=4, randomize_prior_order=True)), ("it_fn", dict(n_requested_samples=2, init_batch_size=16, growth_factor=2, n_batches=3))]),
         ("three calls default batching", [("rej", {}), ("rej", {}), ("rej_fn", dict(n_batches=5))]),
+        ("two file calls drawing many linear samples each", [("rej_fn", dict(n_batches=2, n_linear_samples=8)), ("rej_fn", dict(n_batches=2, n_linear_samples=8))]),
         ("in-memory calls (no child generators: every draw from the sampler's own stream), then a file call",
          [("rej_mem", {}), ("rej_mem", dict(n_linear_samples=2)), ("it_mem", dict(n_requested_samples=2, init_batch_size=16, growth_factor=2)), ("rej_fn", dict(n_batches=2))]),
     ]
@@ -289,6 +290,14 @@ def stream_cases(ctx, env):
             ctx.fail("predicate", "C10:streams", f"{label}: two child generators share a spawn key", case=case)
         if len(set(used)) != len(used) or sorted(used) != sorted(handed):
             ctx.fail("predicate", "C10:streams", f"{label}: task generators were not built one-to-one from the spawned child seeds (built from {used[:6]}.., spawned {handed[:6]}..)", case=case)
+        # linear draws are continuous: the same double appearing in two calls means the calls read overlapping stretches of one stream
+        kvals = [set(np.frombuffer(kb, dtype=float).tolist()) for _, kb in Ks]
+        for a_ in range(len(kvals)):
+            for b_ in range(a_ + 1, len(kvals)):
+                common = kvals[a_] & kvals[b_]
+                if common:
+                    ctx.fail("predicate", "C10:streams", f"{label}: {len(common)} linear-parameter draws of call #{b_ + 1} are bit-identical to draws of call #{a_ + 1} "
+                             "(the calls' child streams overlap)", case=case)
         if len(Ks) >= 2 and Ks[0] == Ks[1]:
             ctx.fail("predicate", "C10:streams", f"{label}: two successive calls returned identical samples incl. linear draws (streams repeated)", case=case)
         cs = coq_list([f"CDraw {n}" if k == "draw" else f"CSpawn {n}" for k, n in gen.calls])
